@@ -163,7 +163,10 @@ int libwifi_get_wpa_data(struct libwifi_frame *frame, struct libwifi_wpa_auth_da
     data->type = auth_data->type;
     data->length = ntohs(auth_data->length);
     data->descriptor = auth_data->descriptor;
-    memcpy(&data->key_info, &auth_data->key_info, sizeof(struct libwifi_wpa_key_info));
+    // Copy the fixed part of the key information: the trailing key_data member is a pointer
+    // owned by this struct, not frame data
+    memcpy(&data->key_info, &auth_data->key_info, sizeof(struct libwifi_wpa_key_info) - sizeof(unsigned char *));
+    data->key_info.key_data = NULL;
     data->key_info.information = ntohs(auth_data->key_info.information);
     data->key_info.key_length = ntohs(auth_data->key_info.key_length);
     data->key_info.replay_counter = be64toh(auth_data->key_info.replay_counter);
@@ -175,8 +178,19 @@ int libwifi_get_wpa_data(struct libwifi_frame *frame, struct libwifi_wpa_auth_da
             data->key_info.key_data_length = 1024;
         }
 
+        // Never return more key data than the frame actually holds
+        size_t key_data_offset = sizeof(struct libwifi_logical_link_ctrl) +
+                                 sizeof(struct libwifi_wpa_auth_data) - sizeof(unsigned char *);
+        size_t key_data_available = (frame->len - frame->header_len) - key_data_offset;
+        if (data->key_info.key_data_length > key_data_available) {
+            data->key_info.key_data_length = (uint16_t) key_data_available;
+        }
+    }
+
+    if (data->key_info.key_data_length > 0) {
         data->key_info.key_data = malloc(data->key_info.key_data_length);
         if (data->key_info.key_data == NULL) {
+            data->key_info.key_data_length = 0;
             return -ENOMEM;
         }
         size_t key_data_offset = sizeof(struct libwifi_logical_link_ctrl) +
